@@ -107,14 +107,40 @@ def clause_text(line):
 
 
 def analyse_unit(unit):
+    """One unit, with one fallback: when the only obstacles are compile errors / unsupported constructs located inside
+    extracted functions (a changed body left the verifiable subset), those functions are kept as assumed contracts
+    (bodies dropped) and the unit is run again, so that the other functions are still decided.  The obstacles stay
+    listed as undecided (the unit can no longer be reported OK); obligations that fail in the second run are
+    failures of functions whose text did compile."""
+    first = _analyse_unit(unit, ())
+    if first["status"] != "undecided" or not first.get("blocked_items"):
+        return first
+    demote = set(first["blocked_items"])
+    for _round in range(3):
+        second = _analyse_unit(unit, tuple(sorted(demote)))
+        more = set(second.get("blocked_items") or ()) - demote
+        if not more:
+            break
+        demote |= more
+    second["undecided"] = first["undecided"] + [u for u in second["undecided"] if u not in first["undecided"]
+                                                and not u.startswith("vacuity canary")]
+    second["undecided"].append("fallback: " + ", ".join(sorted(short_item(x) for x in demote))
+                               + " kept as assumed contract(s) for a second run of the unit")
+    second["status"] = "undecided"
+    second["wall"] = first.get("wall", 0) + second.get("wall", 0)
+    return second
+
+
+def _analyse_unit(unit, demote):
     """returns dict(status, failures[], canary_ok, metas, stats, ...)"""
     OUT = os.path.join(globals()["OUT"], CUR_PID or "_")
     os.makedirs(OUT, exist_ok=True)
     tmpl = os.path.join(ROOT, "units", unit + ".vu")
     res = {"unit": unit, "status": "ok", "failures": [], "undecided": [], "trusted": [],
-           "metas": [], "functions": {}, "wall": 0.0}
+           "metas": [], "functions": {}, "wall": 0.0, "blocked_items": []}
+    blocked, unlocated = set(), False
     try:
-        text, lmap, metas, stats = weave.build_unit(tmpl, canaries=True)
+        text, lmap, metas, stats = weave.build_unit(tmpl, canaries=True, demote=demote)
     except weave.WeaveError as e:
         res["status"] = "undecided"
         res["undecided"].append(f"extraction/weave: {e}")
@@ -180,6 +206,11 @@ def analyse_unit(unit):
             # compile error / unsupported construct / anything that is not a proof failure
             where = f"{src_file}:{src_line}" if src_file else "template"
             res["undecided"].append(f"verus: {msg[:300]} ({where}; item={loc_item})")
+            if loc_item is not None and not msg.startswith("aborting due to"):
+                blocked.add(loc_item)
+            elif not msg.startswith("aborting due to") and not msg.startswith("Some errors have detailed") \
+                    and not msg.startswith("For more information about"):
+                unlocated = True
             continue
         if kind == "needs-decreases":
             res["undecided"].append(f"loop without decreases clause in {loc_item} (no invariant woven for it)")
@@ -223,6 +254,8 @@ def analyse_unit(unit):
                                 + ", ".join(sorted(short_item(x) for x in missing)))
     if r["summary"] is None and not res["undecided"] and not res["failures"]:
         res["undecided"].append("verus produced no JSON summary: " + r.get("stderr_tail", "")[-400:])
+    if blocked and not unlocated:
+        res["blocked_items"] = sorted(blocked)
     if res["undecided"]:
         res["status"] = "undecided"
     elif res["failures"]:
